@@ -1,5 +1,5 @@
 """C08 (partial): R-PROG — decoder lengths >= 1, range loops advance on every path, page walk steps to the next
-page boundary; T-LEN length granularity; READ-EXTENT."""
+page boundary; T-LEN length granularity; READ-EXTENT; RUN-EXTENT."""
 from nk import report
 from rules import prog as rprog, tbl, extent, caselen
 from . import common
@@ -14,14 +14,19 @@ EXPLANATION = (
     'T-LEN: constant decoder lengths are multiples of the encoder\'s emission unit. READ-EXTENT: for every decoder read Memory::readN(address + O) with a linear offset whose value is formatted into the text by a '
     'call that lies on every path to a `return L`, (O + N - 1) - L is not a constant >= 0 (the text is not built from a byte at or '
     'beyond the reported length); reads that are only tested (a longer form tried first, fallback to a shorter one) are listed as '
-    'observations. GUARD-LEN: constant returns under a test of the length column of the matched row equal that length. Not decided: text stays inside the buffer, independence from following bytes that are only tested, '
+    'observations. RUN-EXTENT: the same obligation for the 15 decoders that keep a running position (address += 2; count += 2; '
+    'readN(address)): affine updates of address/length locals, bounded operand-loop counters and the value read (through local '
+    'assignments and character buffers into the text parameter) are propagated along condition-consistent CFG paths, with the '
+    'operand kinds chosen in per-operand switches restricted to those of one table row; at every return the extent of the reads '
+    'that reached the text is <= the returned length. GUARD-LEN: constant returns under a test of the length column of the matched row equal that length. Not decided: text stays inside the buffer, independence from following bytes that are only tested, '
     'the upper bound on lengths.')
 
 
 def run(tier, t0):
     prog = common.program()
     cg = common.callgraph()
-    results = [rprog.run(prog, cg), tbl.tlen(prog, cg), extent.read_extent(prog, cg), caselen.guard_len(prog)]
+    results = [rprog.run(prog, cg), tbl.tlen(prog, cg), extent.read_extent(prog, cg), extent.run_extent(prog, cg, floor=12),
+               caselen.guard_len(prog)]
     return report.finish('C08', tier, results, EXPLANATION,
                          ['opcode tables are not modified at run time (checked: no store to them exists)',
                           'a lower bound that the interval domain cannot establish is reported as an observation, '
